@@ -144,6 +144,12 @@ TWrite ==
               full => \A i \in 1..Len(pages) :
                  /\ \A j \in 1..Len(pages[i].reps) : pages[i].reps[j] <= cols[pages[i].col].maxrep
                  /\ \A j \in 1..Len(pages[i].defs) : pages[i].defs[j] <= cols[pages[i].col].maxdef)
+       \* the value section of a page holds the non-null values of its entries and nothing else (no placeholder for a null,
+       \* no trailing bytes): header sizes, level sections and the PLAIN values add up exactly
+       /\ Chk("C03", "ValueSectionExact",
+              full => \A i \in 1..Len(pages) :
+                 /\ pages[i].datalen = pages[i].replen + pages[i].deflen + pages[i].vallen
+                 /\ Len(pages[i].toks) = pages[i].nonnull)
        /\ Chk("C12", "NullCountExact", \A i \in 1..Len(pages) : StatsNullCount(pages[i]))
        /\ Chk("C12", "MinMaxSound", \A i \in 1..Len(pages) : StatsSound(pages[i]))
        /\ Chk("C12", "MinMaxAbsentWithoutValues", \A i \in 1..Len(pages) : StatsAbsentWhenEmpty(pages[i]))
@@ -351,6 +357,16 @@ TCli ==
   /\ Chk("C16", "CliPageHeadersEqualIndependentWalk", Ev.err = "" => Ev.hdrs = Ev.ipages)
   /\ UNCHANGED <<caseId, schema, cols, maxPage, codecN, recs, batches, snk, wc, faultK, rowsTab, clean>>
 
+\* a workload too large for one event per record (>= 65 536 records, values per page, level entries): the driver
+\* generates record i from i, compares the read-back in Go and reports one summary event
+TBulk ==
+  /\ More /\ Ev.ev = "Bulk"
+  /\ l' = l + 1
+  /\ Chk("C01", "BulkWriteSucceeds", Ev.werr = "" /\ Ev.pan = "")
+  /\ Chk("C01", "BulkRowsExact",
+         (Ev.werr = "" /\ Ev.pan = "") => (Ev.rerr = "" /\ Ev.nread = Ev.n /\ Ev.rowsrep = Ev.n /\ Ev.firstbad = -1))
+  /\ UNCHANGED <<caseId, schema, cols, maxPage, codecN, recs, batches, snk, wc, faultK, rowsTab, clean>>
+
 TRows ==
   /\ More /\ Ev.ev = "Rows"
   /\ l' = l + 1
@@ -380,7 +396,7 @@ TOther ==
 
 TDone == /\ l = Len(Trace) + 1 /\ PrintT(<<"TRACEDONE", Len(Trace)>>) /\ UNCHANGED vars
 
-Next == TReset \/ TNew \/ TAdd \/ TWrite \/ TClose \/ TRead \/ TRows \/ TForeign \/ TExpect \/ TRegen \/ TPair \/ TIntro \/ TCli \/ TSched \/ TStress \/ TSinkRun \/ TSinkCall \/ TOther \/ TDone
+Next == TReset \/ TNew \/ TAdd \/ TWrite \/ TClose \/ TRead \/ TRows \/ TForeign \/ TExpect \/ TRegen \/ TPair \/ TBulk \/ TIntro \/ TCli \/ TSched \/ TStress \/ TSinkRun \/ TSinkCall \/ TOther \/ TDone
 Spec == Init /\ [][Next]_vars
 
 \* every line was consumed: one state per line plus the initial state
